@@ -10,6 +10,7 @@ RULE = ("random API construction programs (0-8 sections of mixed types/flags/ali
 ASSUMPTIONS = ["writer's domain: power-of-two alignments, segment members in address order, non-empty, allocated, no-bits last",
                "section names NUL-free"]
 KEEP_PREFIX = 2
+NO_SHRINK = True     # a shrunk construction program leaves the writer's domain
 
 
 def meta_from_lines(lines):
